@@ -21,8 +21,8 @@ EXTENDS SchemeCEK, Json, IOUtils, TLCExt
 Rec == ndJsonDeserialize(IOEnv.TRACE)
 MaxSteps == 400000
 
-VARIABLES m, si, fi, ph, tot
-vars == <<m, si, fi, ph, tot>>
+VARIABLES m, si, fi, ph, tot, hist     \* hist: per finished form the maximal continuation depth (ghost)
+vars == <<m, si, fi, ph, tot, hist>>
 
 Has(r, f) == f \in DOMAIN r
 
@@ -50,7 +50,7 @@ OutMatch(eo, go) ==
 
 \* Does observation o agree with the finished machine mm?  Returns "" or a description.
 Judge(mm, o) ==
-  IF o.r \in {"panic", "timeout", "abort"} THEN o.r
+  IF o.r \in {"panic", "timeout", "abort", "stacklimit"} THEN o.r
   ELSE IF Has(o, "render_panic") THEN "error cannot be rendered"
   ELSE IF mm.status = "done" THEN
          IF o.r # "ok" THEN "failure where a value is prescribed"
@@ -130,6 +130,7 @@ Init ==
   /\ fi = 0
   /\ ph = "next"
   /\ tot = 0
+  /\ hist = <<>>
   /\ m = InitMachine(Rec[si].syms)
 
 Begin ==
@@ -137,27 +138,55 @@ Begin ==
   /\ fi' = fi + 1
   /\ m' = StartForm(m, Rec[si].forms[fi + 1])
   /\ ph' = "run"
-  /\ UNCHANGED <<si, tot>>
+  /\ UNCHANGED <<si, tot, hist>>
 
 Step ==
   /\ ph = "run" /\ Running(m)
   /\ m' = IF m.steps >= MaxSteps THEN OutOfModel(m, "step limit") ELSE StepM(m)
-  /\ UNCHANGED <<si, fi, ph, tot>>
+  /\ UNCHANGED <<si, fi, ph, tot, hist>>
 
 Finish ==
   /\ ph = "run" /\ ~Running(m)
   /\ IF m.status = "oom" THEN TRUE ELSE CheckRuns(m) /\ CheckExpect(m)
   /\ ph' = IF m.status = "oom" THEN "stop" ELSE "next"
   /\ tot' = tot + m.steps
+  /\ hist' = Append(hist, m.maxd)
   /\ UNCHANGED <<m, si, fi>>
+
+\* C04, checked when the session is complete:
+\*  (a) the continuation depth of the tail-recursive loop is the same for n = 10 and n = 100 (independent of n);
+\*  (b) the implementation-only runs with n = 1000 and n = 100000 return the value of their non-tail twin and stay
+\*      within the stack bound derived from the depth the specification measured for the same loop.
+TailDepth == IF Has(Rec[si], "tailforms") /\ Len(hist) >= Rec[si].tailforms[Len(Rec[si].tailforms)]
+             THEN hist[Rec[si].tailforms[Len(Rec[si].tailforms)]] ELSE 0
+CheckTail ==
+  IF ~Has(Rec[si], "tailpairs") \/ ph = "stop" THEN TRUE
+  ELSE /\ \A i \in 1..Len(Rec[si].tailpairs) :
+            LET p == Rec[si].tailpairs[i] IN
+            IF Len(hist) < p[2] THEN TRUE
+            ELSE IF hist[p[1]] = hist[p[2]] THEN TRUE
+            ELSE Report("taildepth", "spec", "continuation depth of the loop depends on n", hist[p[1]], hist[p[2]])
+       /\ \A i \in 1..Len(Rec[si].big) :
+            LET b == Rec[si].big[i]
+                bound == (TailDepth + 2) * (2 * Rec[si].w + 5) IN
+            /\ IF ~Has(b, "tail") THEN TRUE
+               ELSE IF b.tail.r = "ok" /\ b.tail.maxsp <= bound THEN TRUE
+               ELSE Report("stackbound", "plain", "loop of tail calls: failure or stack beyond the bound at large n",
+                           [n |-> b.n, bound |-> bound], b.tail)
+            /\ IF ~(Has(b, "tail") /\ Has(b, "twin")) THEN TRUE
+               ELSE IF b.twin.r # "ok" THEN TRUE      \* the twin is an oracle only when it completes
+               ELSE IF b.tail.r = "ok" /\ b.tail.v = b.twin.v THEN TRUE
+               ELSE Report("tailvalue", "plain", "tail-recursive loop and its non-tail twin differ at large n",
+                           b.twin, b.tail)
 
 End ==
   /\ ph \in {"next", "stop"} /\ (ph = "stop" \/ fi = Len(Rec[si].forms))
+  /\ CheckTail
   /\ PrintT(<<"END", ToJson([id |-> Rec[si].id, forms |-> fi, oom |-> (ph = "stop"),
                             why |-> IF ph = "stop" THEN m.res.payload ELSE "", steps |-> tot,
                             maxd |-> m.maxd, rules |-> m.rules])>>)
   /\ ph' = "end"
-  /\ UNCHANGED <<m, si, fi, tot>>
+  /\ UNCHANGED <<m, si, fi, tot, hist>>
 
 Next == Begin \/ Step \/ Finish \/ End
 Spec == Init /\ [][Next]_vars
